@@ -96,10 +96,11 @@ const (
 	opNack
 	opWaitCancel
 	opSnapCombo
+	opWaitDelete
 	nOps
 )
 
-var opNames = [...]string{"createTopic", "deleteTopic", "createSub", "deleteSub", "updateSub", "publish", "pull", "ack", "modack", "seekTime", "snapshot", "seekSnap", "advance", "job", "dlSweep", "expirySweep", "setDelay", "fault", "restart", "deleteSnap", "pullAck", "chase", "nack", "waitCancel", "snapCombo"}
+var opNames = [...]string{"createTopic", "deleteTopic", "createSub", "deleteSub", "updateSub", "publish", "pull", "ack", "modack", "seekTime", "snapshot", "seekSnap", "advance", "job", "dlSweep", "expirySweep", "setDelay", "fault", "restart", "deleteSnap", "pullAck", "chase", "nack", "waitCancel", "snapCombo", "waitDelete"}
 
 func baseWeights() []int {
 	w := make([]int, nOps)
@@ -128,6 +129,7 @@ func baseWeights() []int {
 	w[opNack] = 3
 	w[opWaitCancel] = 1
 	w[opSnapCombo] = 1
+	w[opWaitDelete] = 1
 	return w
 }
 
@@ -190,6 +192,7 @@ func (r *Run) configure() {
 		w[opPullAck] *= 2
 	case "time":
 		w[opWaitCancel] = 6
+		w[opWaitDelete] = 3
 		w[opAdvance] *= 2
 		w[opExpirySweep] = 5
 		w[opSetDelay] = 3
@@ -221,7 +224,7 @@ func (r *Run) configure() {
 
 // ---- generators ---------------------------------------------------------------------------
 
-var durPalette = []time.Duration{50 * time.Millisecond, 700 * time.Millisecond, 3 * time.Second, 10 * time.Second, 45 * time.Second, 5 * time.Minute, 30 * time.Minute, 2 * time.Hour}
+var durPalette = []time.Duration{time.Millisecond, 50 * time.Millisecond, 700 * time.Millisecond, 3 * time.Second, 10 * time.Second, 45 * time.Second, 5 * time.Minute, 30 * time.Minute, 2 * time.Hour}
 
 func (r *Run) genCfg(forceOrdered, forceDL int) (SubCfg, *pubsubpb.Subscription) {
 	t := r.T
@@ -483,6 +486,8 @@ func (r *Run) step() *Violation {
 		return r.doWaitCancel(t.Intn(r.nSubs))
 	case opSnapCombo:
 		return r.doSnapCombo(t.Intn(r.nSubs))
+	case opWaitDelete:
+		return r.doWaitDelete(t.Intn(r.nSubs))
 	case opFault:
 		if r.Variant == "order" && t.Bool(50) {
 			// a storage fault inside a publish (the predecessor lookup is one of its statements)
@@ -1874,6 +1879,139 @@ func (r *Run) doWaitCancel(i int) *Violation {
 	}
 	r.M.probe("waiting_pull_cancelled")
 	ms.ActLo, ms.ActHi = t0, t1
+	return nil
+}
+
+// doWaitDelete: a waiting pull is parked on a subscription that has a delivery coming due
+// within the pull's wait limit; the subscription is deleted (and its name possibly re-used)
+// while the pull waits. Whatever the pull then ends with, it must not be messages: a deleted
+// subscription has nothing outstanding (C02), its name resolves to nothing or to another
+// subscription.
+func (r *Run) doWaitDelete(i int) *Violation {
+	name := subName(i)
+	if r.pendingFault != "" || r.M.LiveSub(name) == nil {
+		return nil
+	}
+	find := func() (*MSub, *ED) {
+		ms := r.M.LiveSub(name)
+		if ms == nil {
+			return nil, nil
+		}
+		now := time.Now()
+		var target *ED
+		for _, e := range ms.EDs {
+			if !(e.State == stOut || e.Fuzzy) || !e.mayAlive(now) {
+				continue
+			}
+			if !e.LeaseLo.After(now.Add(time.Second)) {
+				return ms, nil // deliverable (almost) now: the pull would not park
+			}
+			if e.State == stOut && !e.Fuzzy && e.LeaseHi.Before(now.Add(45*time.Second)) && e.mustAlive(e.LeaseHi.Add(2*time.Second)) {
+				if target == nil || e.LeaseHi.Before(target.LeaseHi) {
+					target = e
+				}
+			}
+		}
+		return ms, target
+	}
+	ms, target := find()
+	if ms != nil && target == nil {
+		// take what is deliverable now, which leases it for the back-off
+		if v := r.doPull(i, false); v != nil {
+			return v
+		}
+		ms, target = find()
+	}
+	if ms == nil || target == nil {
+		return nil
+	}
+	due := target.LeaseHi
+	r.nudge(5 * time.Millisecond)
+	ctx, cancel := context.WithCancel(context.Background())
+	defer cancel()
+	var err error
+	var resp proto.Message
+	done := make(chan struct{})
+	t0 := time.Now()
+	go func() {
+		defer close(done)
+		resp, err = r.W.Call(ctx, "Pull", &pubsubpb.PullRequest{Subscription: name, MaxMessages: 10})
+	}()
+	r.Sim.Settle() // parked in its server-side wait, or finished
+	finished := func() bool {
+		select {
+		case <-done:
+			return true
+		default:
+			return false
+		}
+	}
+	asOrdinary := func() *Violation {
+		t1 := time.Now()
+		if p, ok := isPanic(err); ok {
+			return viol("C16", "panic:Pull", "%v", p.Val)
+		}
+		if err != nil {
+			r.ev("Pull %s (waiting) -> %v", name, code(err))
+			ms.ActLo, ms.ActHi = t0, t1
+			return nil
+		}
+		recv := toRecv(resp.(*pubsubpb.PullResponse).ReceivedMessages)
+		for _, x := range recv {
+			r.ackPool = append(r.ackPool, x.AckID)
+		}
+		r.ev("Pull %s (waiting) returned %d messages on its own", name, len(recv))
+		return r.M.Pull(ms, 10, recv, t0, t1)
+	}
+	if finished() {
+		return asOrdinary()
+	}
+	if v := r.doDeleteSub(i); v != nil {
+		cancel()
+		<-done
+		return v
+	}
+	if r.M.LiveSub(name) != nil {
+		// the delete failed (injected fault): end the pull like a cancelled wait
+		r.Sim.Settle()
+		if !finished() {
+			cancel()
+		}
+		<-done
+		r.Sim.Settle()
+		return asOrdinary()
+	}
+	r.Sim.Settle()
+	if !finished() && r.T.Bool(50) {
+		// the name is re-used while the old pull is still waiting
+		if v := r.doCreateSub(i, r.T.Intn(r.nTopics)); v != nil {
+			cancel()
+			<-done
+			return v
+		}
+		r.Sim.Settle()
+	}
+	if d := time.Until(due.Add(2 * time.Second)); d > 0 && !finished() {
+		time.Sleep(d)
+		r.Sim.Settle()
+	}
+	stillWaiting := !finished()
+	if stillWaiting {
+		cancel()
+	}
+	<-done
+	r.Sim.Settle()
+	r.M.probe("waiting_pull_subscription_deleted")
+	r.ev("Pull %s (waiting, subscription deleted meanwhile) ended after %v -> %v (still waiting: %v)", name, time.Since(t0), code(err), stillWaiting)
+	r.cev("PullDeleted %s", name)
+	if p, ok := isPanic(err); ok {
+		return viol("C16", "panic:Pull", "%v", p.Val)
+	}
+	if err == nil {
+		if recv := toRecv(resp.(*pubsubpb.PullResponse).ReceivedMessages); len(recv) > 0 {
+			return viol("C02", "served_after_delete", "a pull waiting on %s when it was deleted returned %d message(s) afterwards (first: message id %s, ack id %s): a deleted subscription has nothing outstanding", name, len(recv), recv[0].MsgID, recv[0].AckID)
+		}
+	}
 	return nil
 }
 
